@@ -8,7 +8,8 @@
     buffer-size sequence and loop fuel.  The [_zstd] theorems are kept for the files that
     import them; the unrestricted ones follow them. *)
 From ZV Require Import Base.Bytes Gen.GenConsts Format.Compint Format.Header Format.ParseImpl Format.ParseProofs
-                       Format.ParseExamples Read.ReadSpec Read.CompRead Read.ReadLemmas Read.ReadProofs Read.ReadNocomp Read.ReadComplete Read.ReadExamples.
+                       Format.ParseExamples Read.ReadSpec Read.CompRead Read.ReadLemmas Read.ReadProofs Read.ReadNocomp Read.ReadComplete Read.ReadRequest
+                       Read.ReadExamples.
 Local Open Scope N_scope.
 
 (** T2.1 whatever the bytes [f], the hash [H], the decoder [zdecomp], the buffer sizes and the
@@ -133,6 +134,43 @@ Proof.
 Qed.
 Print Assumptions C02_valid_file_reads_back.
 
+(** The chunk-request API on ARBITRARY files: whatever the bytes of the file, whatever was
+    requested before (data requests with any buffer sizes, stored-data requests, failed
+    requests), if zck_get_chunk_data of entry k with a buffer of at least the declared size
+    succeeds then the stored bytes of that entry match its index checksum ([digest_ok]: what
+    validate_chunk decides) and the first [declared size] bytes returned are the content the
+    specification decodes from that entry ([spec_chunk_content]: needs only the entry and, for
+    zstd entries of a file with a dictionary, the decoded dictionary entry) - both compression
+    types.  (A larger buffer also receives the beginning of the following entries, as the API
+    always did; with a buffer of exactly the declared size the whole result is that content.) *)
+Theorem C02_chunk_request_success_is_verified_content :
+  forall (H : N -> bytes -> bytes) (zdecomp : option bytes -> bytes -> N -> option bytes) p f h fuel l,
+  wf_bytes f -> parse_impl H p f = POk h ->
+  ~ In RFuel (run_greqs H zdecomp h f fuel (open_state h f) l) ->
+  Forall2 (greq_sound H zdecomp h f) l (run_greqs H zdecomp h f fuel (open_state h f) l).
+Proof.
+  intros H zdecomp p f h fuel l Hwf Hp.
+  destruct (header_facts H p f h Hwf Hp) as (A & B & C).
+  exact (run_greqs_sound H zdecomp h f A B fuel l (open_state h f) (open_DI H zdecomp h f B)).
+Qed.
+Print Assumptions C02_chunk_request_success_is_verified_content.
+
+(** the same for one request on any context reached that way *)
+Theorem C02_chunk_request_one :
+  forall (H : N -> bytes -> bytes) (zdecomp : option bytes -> bytes -> N -> option bytes) p f h fuel st k n c next o st',
+  wf_bytes f -> parse_impl H p f = POk h ->
+  DI H zdecomp h f st -> skipn k (h_chunks h) = c :: next ->
+  zck_get_chunk_data H zdecomp h f fuel st k n = (ROk o, st') ->
+  DI H zdecomp h f st' /\
+  (0 < c_ulen c -> c_ulen c <= n ->
+     digest_ok H h f c /\ spec_chunk_content zdecomp h f k = Some (takeN (c_ulen c) o)).
+Proof.
+  intros H zdecomp p f h fuel st k n c next o st' Hwf Hp.
+  destruct (header_facts H p f h Hwf Hp) as (A & B & C).
+  exact (gcd_sound H zdecomp h f A B fuel st k n c next o st').
+Qed.
+Print Assumptions C02_chunk_request_one.
+
 (** Non-vacuity: a concrete sealed three-chunk file is read to the end and closed with
     success, with 2-byte buffers (zstd type) and with mixed buffers (uncompressed type);
     the same file with one stored byte changed is refused. *)
@@ -145,4 +183,25 @@ Proof. vm_compute. repeat split; reflexivity. Qed.
 Example C02_ex_corrupted_refused :
   ex_session exz_bad [2; 2; 2; 2; 2; 2; 2] = Some ([1; 2], Some false, false) /\
   option_map (fun h => spec_verify toyH h exz_bad) (hdr_of exz_bad) = Some false.
+Proof. vm_compute. split; reflexivity. Qed.
+
+(** Non-vacuity of the request theorem and the witness of the defect it answers: on the
+    uncompressed example file with one stored byte of chunk 2 changed, a request for chunk 2
+    with a buffer of exactly its size now FAILS (and the intact chunks are still served),
+    whereas the function as it was before the fix returned the corrupted bytes with success
+    although the chunk checksum does not match. *)
+Example C02_ex_chunk_request :
+  option_map (fun h => ex_requests h exn_bad (open_state h exn_bad) [2]%nat) (hdr_of exn_bad) = Some [RErr (-1)] /\
+  option_map (fun h => ex_requests h exn_bad (open_state h exn_bad) [1; 3]%nat) (hdr_of exn_bad)
+    = Some [ROk [1; 2; 3]; ROk [6; 7; 8; 9]] /\
+  option_map (fun h => ex_requests h exn_file (open_state h exn_file) [2; 2]%nat) (hdr_of exn_file)
+    = Some [ROk [4; 5]; ROk [4; 5]] /\
+  option_map (fun h => spec_chunk_content toyZ h exn_file 2) (hdr_of exn_file) = Some (Some [4; 5]).
+Proof. vm_compute. repeat split; reflexivity. Qed.
+Example C02_chunk_request_before_fix_refuted :
+  option_map (fun h => fst (zck_get_chunk_data_before_fix toyH toyZ h exn_bad 100 (open_state h exn_bad) 2 2)) (hdr_of exn_bad)
+    = Some (ROk [44; 5]) /\
+  option_map (fun h => match skipn 2 (h_chunks h) with
+                       | c :: _ => bytes_eqb (toyH (h_chash h) (stored (body h exn_bad) c)) (c_digest c)
+                       | [] => true end) (hdr_of exn_bad) = Some false.
 Proof. vm_compute. split; reflexivity. Qed.
